@@ -217,6 +217,9 @@ def corpus():
         ('external-callback-in-nested', dict(classes=[[S(['x1', 'o'])], [S(['a'])]], cbs=[['a', 'o']], top=[0], ext=[[0, 0]])),
         ('sync-steps-only', dict(classes=[[S(['o', 'u', 'l1', 'x1', 'c0'], 'next'), S(['o'])], [S(['o'])]], cbs=[['o']], top=[0, 0])),
     ]
+    for name, scn in list(out):
+        if any(not any(a == 'a' or a[0] == 'i' for a in c) for c in scn['cbs']):
+            out.append((name + '+marked', dict(scn, cbmark=list(range(len(scn['cbs']))))))
     return out
 
 
@@ -282,7 +285,10 @@ def random_scenario(rng, big=False):
     ext = [[rng.randrange(len(top)), rng.randrange(n_cbs)] for _ in range(rng.choice([0, 0, 1, 2]))] if n_cbs else []
     has_wait = any(st['end'] == 'wait' for c in classes for st in c)
     kills = sorted({rng.randrange(len(top) + 2) for _ in range(rng.choice([0, 1, 2]))}) if has_wait else []
-    return dict(classes=classes, cbs=cbs, top=top, ext=ext, kills=kills)
+    scn = dict(classes=classes, cbs=cbs, top=top, ext=ext, kills=kills)
+    if cbs and rng.random() < 0.3:
+        scn['cbmark'] = [j for j in range(n_cbs) if rng.random() < 0.7]   # rendering only (marked plain functions), not in the model line
+    return scn
 
 
 def scenario_size(scn):
